@@ -102,6 +102,9 @@ Here(w) == << Len(w.ls) + 1, Len(w.cur) + 1 >>
 
 PutScalar(w, n) ==
   IF n.tg = "" THEN Put(w, QuoteChar(n.st) \o n.v \o QuoteChar(n.st))
+  ELSE IF n.tg = "tok2"       \* companion: a second construct of the same class, no blanks inserted in front of it
+  THEN LET w3 == Put(w, QuoteChar(n.st) \o n.pre) IN
+       Put([w3 EXCEPT !.at2 = Here(w3)], n.post \o QuoteChar(n.st))
   ELSE LET w1 == Put(w, Sp(w.o.gap))
            w2 == [w1 EXCEPT !.sc = Here(w1)]
            w3 == Put(w2, QuoteChar(n.st) \o n.pre)
@@ -156,7 +159,7 @@ Above(w, n) == IF n = 0 THEN w ELSE Above(NL(Put(w, "# pad")), n - 1)
 
 \* o = [ind, seqind, gap, kl, docstart]
 Render(doc, o) ==
-  LET w0 == [ls |-> <<>>, cur |-> "", sc |-> <<0, 0>>, at |-> <<0, 0>>, o |-> o]
+  LET w0 == [ls |-> <<>>, cur |-> "", sc |-> <<0, 0>>, at |-> <<0, 0>>, at2 |-> <<0, 0>>, o |-> o]
       w1 == Above(w0, o.kl)
       w2 == IF o.docstart THEN NL(Put(w1, "---")) ELSE w1
   IN NL(Block(w2, doc, 1))
@@ -167,7 +170,12 @@ Render(doc, o) ==
    sq: the text contains a single quote (cannot be written single-quoted without an escape sequence)
    fp: the bare text / the value may be written as a plain scalar inside a flow collection (no , [ ] { } ?)
    bp: the bare text may be written as a plain scalar at all;  bare: the class can be a bare `if:` condition *)
-AllExprSlots == {"env", "runname", "stepname", "run", "with", "matrix", "ifw", "ifb", "timeout"}
+\* slots "filter" (branches filter: RuleGlob reports on the same scalar before RuleExpression runs), "types" (activity
+\* type: RuleEvents reports first) and "matrixdup2" (the value twice in one matrix row: RuleMatrix reports a duplicate
+\* first, and the expression diagnostic is expected at BOTH values) hold TWO diagnosed constructs of two rules in
+\* one scalar: a rule must not disturb the position another rule reports for the same node
+AllExprSlots == {"env", "runname", "stepname", "run", "with", "matrix", "ifw", "ifb", "timeout", "filter", "types",
+                 "matrixdup2"}
 NoIf == AllExprSlots \ {"ifw", "ifb"}
 
 X(b, t, a, sq, fp, bp, bare, slots, phrase) ==
@@ -232,7 +240,7 @@ Cat(c) ==
     [] c = "int-range"       -> X("1 == ", "2147483648", "", FALSE, TRUE, TRUE, TRUE, AllExprSlots,
                                   "parsing invalid integer literal \"2147483648\"")
     [] c = "ctx-notallowed"  -> X("true && ", "runner", ".os", FALSE, TRUE, TRUE, FALSE,
-                                  {"env", "runname", "matrix", "timeout"}, "context \"runner\" is not allowed here")
+                                  {"env", "runname", "matrix", "matrixdup2", "timeout"}, "context \"runner\" is not allowed here")
     [] c = "func-notallowed" -> X("true && ", "success", "()", FALSE, TRUE, TRUE, FALSE, NoIf,
                                   "calling function \"success\" is not allowed here")
     [] c = "untrusted"       -> X("true && ", "github", ".head_ref", FALSE, TRUE, TRUE, FALSE, {"run"},
@@ -293,7 +301,70 @@ Cat(c) ==
                                     "input type of workflow_dispatch event must be one of")
     [] c = "matrix-dup"       -> KV("elem", "matrixdup", "", "1", FALSE, TRUE, "matrix",
                                     "duplicate value \"1\" is found in matrix \"k\"")
+    \* ---- the parser's other diagnostics about a key or a one-line scalar value (parse.go, every p.error* call)
+    [] c = "unknown-key-job"      -> KV("key", "job", "bogus", "x", FALSE, TRUE, "syntax-check",
+                                        "unexpected key \"bogus\" for \"job\" section")
+    [] c = "unknown-key-strategy" -> KV("key", "strategy", "bogus", "x", FALSE, TRUE, "syntax-check",
+                                        "unexpected key \"bogus\" for \"strategy\" section")
+    [] c = "unknown-key-defrun"   -> KV("key", "defrun", "bogus", "x", FALSE, TRUE, "syntax-check",
+                                        "unexpected key \"bogus\" for \"run\" section")
+    [] c = "unknown-key-container" -> KV("key", "container", "bogus", "x", FALSE, TRUE, "syntax-check",
+                                        "unexpected key \"bogus\" for \"container\" section")
+    [] c = "unknown-key-environment" -> KV("key", "environment", "bogus", "x", FALSE, TRUE, "syntax-check",
+                                        "unexpected key \"bogus\" for \"environment\" section")
+    [] c = "unknown-key-runson"   -> KV("key", "runsonmap", "bogus", "x", FALSE, TRUE, "syntax-check",
+                                        "unexpected key \"bogus\" for \"runs-on\" section")
+    [] c = "unknown-key-dispatch" -> KV("key", "dispatchtop", "bogus", "x", FALSE, TRUE, "syntax-check",
+                                        "key for \"workflow_dispatch\" section but got \"bogus\"")
+    [] c = "unknown-key-call"     -> KV("key", "calltop", "bogus", "x", FALSE, TRUE, "syntax-check",
+                                        "unexpected key \"bogus\" for \"workflow_call\" section")
+    [] c = "dup-key-env"          -> KV("key", "env", "a", "y", FALSE, TRUE, "syntax-check",
+                                        "key \"a\" is duplicated in env")
+    [] c = "empty-string"         -> KV("val", "image", "image", "", FALSE, TRUE, "syntax-check", "string should not be empty")
+    [] c = "int-literal"          -> KV("val", "strategy", "max-parallel", "x", FALSE, TRUE, "syntax-check",
+                                        "expression or integer literal")
+    [] c = "max-parallel-zero"    -> KV("val", "strategy", "max-parallel", "0", FALSE, TRUE, "syntax-check",
+                                        "value at \"max-parallel\" must be greater than zero")
+    [] c = "timeout-zero"         -> KV("val", "job", "timeout-minutes", "0", FALSE, TRUE, "syntax-check",
+                                        "value at \"timeout-minutes\" must be greater than zero")
+    [] c = "schedule-elem"        -> KV("elem", "schedseq", "", "x", FALSE, TRUE, "syntax-check",
+                                        "element of \"schedule\" section must be mapping")
+    [] c = "event-in-seq"         -> KV("elem", "onseq", "", "schedule", FALSE, TRUE, "syntax-check",
+                                        "\"schedule\" event should not be listed in sequence")
+    [] c = "event-in-seq2"        -> KV("elem", "onseq", "", "repository_dispatch", FALSE, TRUE, "syntax-check",
+                                        "\"repository_dispatch\" event should not be listed in sequence")
+    [] c = "on-schedule-scalar"   -> KV("key", "onkey", "on", "schedule", FALSE, TRUE, "syntax-check",
+                                        "schedule event must be configured with mapping")
+    [] c = "call-input-type"      -> KV("val", "callinput", "type", "strng", FALSE, TRUE, "syntax-check",
+                                        "invalid value \"strng\" for input type of workflow_call event")
+    [] c = "call-type-missing"    -> KV("key", "callinputkey", "x", "", FALSE, TRUE, "syntax-check",
+                                        "\"type\" is missing at \"x\" input of workflow_call event")
+    [] c = "call-value-missing"   -> KV("key", "calloutputkey", "o", "", FALSE, TRUE, "syntax-check",
+                                        "\"value\" is missing at \"o\" output of workflow_call event")
+    [] c = "key-conflict-run"     -> KV("key", "step", "uses", "x", FALSE, TRUE, "syntax-check",
+                                        "but also contains \"uses\" key which is used for running action")
+    [] c = "key-conflict-uses"    -> KV("key", "stepuses", "shell", "bash", FALSE, TRUE, "syntax-check",
+                                        "but also contains \"shell\" key which is used for running shell command")
+    [] c = "workdir-with-uses"    -> KV("val", "stepuses", "working-directory", "x", FALSE, TRUE, "syntax-check",
+                                        "\"working-directory\" is not available with \"uses\"")
+    [] c = "secrets-scalar"       -> KV("val", "calljob", "secrets", "foo", FALSE, TRUE, "syntax-check",
+                                        "expected mapping node for secrets or \"inherit\" string node")
+    [] c = "call-stepsonly-key"   -> KV("key", "calljob", "runs-on", "ubuntu-latest", FALSE, TRUE, "syntax-check",
+                                        "\"runs-on\" is not available")
+    [] c = "call-only-key"        -> KV("key", "job", "secrets", "inherit", FALSE, TRUE, "syntax-check",
+                                        "\"secrets\" is only available for a reusable workflow call")
+    \* ---- two rules report on one scalar: the diagnostic of the rule under test next to one of RuleExpression
+    [] c = "deprecated-cmd-expr"  -> KV("val", "stepn", "run", "echo ::set-output name=x::${{ nope }}", FALSE, FALSE,
+                                        "deprecated-commands", "workflow command \"set-output\" was deprecated")
+    [] c = "if-always-expr"       -> KV("val", "step", "if", "${{ nope }} x", FALSE, FALSE, "if-cond",
+                                        "is always evaluated to true")
+    [] c = "activity-type-expr"   -> KV("elem", "types", "", "bogus-${{ nope }}", FALSE, FALSE, "events",
+                                        "invalid activity type \"bogus-${{ nope }}\"")
+    [] c = "matrix-dup-expr"      -> KV("elem", "matrixdupx", "", "${{ nope }}", FALSE, FALSE, "matrix",
+                                        "duplicate value \"${{ nope }}\" is found in matrix \"k\"")
     \* ---- characters of filter patterns
+    [] c = "glob-refchar-expr" -> G({"globv", "globq"}, "branches", "r", "^", "l-${{nope}}", FALSE,
+                                   "character '^' is invalid for branch and tag names")
     [] c = "glob-refchar"     -> G({"globv", "globq"}, "branches", "fo", "^", "o", TRUE,
                                    "character '^' is invalid for branch and tag names")
     [] c = "glob-space"       -> G({"globv", "globq"}, "tags", "ma", " ", "in", TRUE,
@@ -313,8 +384,14 @@ KVClasses == {"unknown-key-top", "unknown-key-conc", "unknown-key-step", "unknow
               "env-name", "perm-scope", "perm-value", "perm-all", "input-undefined", "exclude-unknown", "job-id",
               "needs-unknown", "needs-dup", "step-id", "shell-name", "bool-literal", "bool-type", "if-always",
               "runner-label", "float-literal", "num-type", "action-format", "deprecated-cmd", "event-unknown",
-              "activity-type", "cron", "dispatch-type", "matrix-dup"}
-GlobClasses == {"glob-refchar", "glob-space", "glob-quant", "glob-empty", "glob-range"}
+              "activity-type", "cron", "dispatch-type", "matrix-dup",
+              "unknown-key-job", "unknown-key-strategy", "unknown-key-defrun", "unknown-key-container",
+              "unknown-key-environment", "unknown-key-runson", "unknown-key-dispatch", "unknown-key-call", "dup-key-env",
+              "empty-string", "int-literal", "max-parallel-zero", "timeout-zero", "schedule-elem", "event-in-seq",
+              "event-in-seq2", "on-schedule-scalar", "call-input-type", "call-type-missing", "call-value-missing",
+              "key-conflict-run", "key-conflict-uses", "workdir-with-uses", "secrets-scalar", "call-stepsonly-key",
+              "call-only-key", "deprecated-cmd-expr", "if-always-expr", "activity-type-expr", "matrix-dup-expr"}
+GlobClasses == {"glob-refchar", "glob-space", "glob-quant", "glob-empty", "glob-range", "glob-refchar-expr"}
 AllClasses == ExprClasses \cup KVClasses \cup GlobClasses
 \* class sets named by the configurations (spec/cfg/Position_*.cfg)
 ArithClasses == {"undef-prop", "lex-num", "parse-end", "tmpl-object"}
@@ -322,10 +399,12 @@ LayoutClasses == {"undef-prop0", "arg-type", "tmpl-object"}
 KVGlobClasses == KVClasses \cup GlobClasses
 
 \* slots whose enclosing collection can only be written in block style
-BlockOnly == {"runname", "timeout", "top", "job", "runson", "jobid", "needsunk", "stepn"}
+BlockOnly == {"runname", "timeout", "top", "job", "runson", "jobid", "needsunk", "stepn", "onkey"}
 \* a single ${{ }} must cover the whole scalar
 WholeSlots == {"timeout"}
 BareSlots == {"ifb"}
+NoContextSlots == {"filter", "types"}
+PlainOnly == {"max-parallel-zero", "timeout-zero"}      \* a quoted 0 is a string, not the number 0
 SlotsOf(c) == IF Cat(c).fam \in {"tok", "ph"} THEN Cat(c).slots \cap Slots ELSE Cat(c).slots
 
 ----------------------------------------------------------------------------
@@ -366,6 +445,7 @@ ValuePost(p) ==
     [] OTHER -> c.val
 TargetTag(p) == IF Cat(p.cls).fam = "kv" THEN "val" ELSE "tok"
 Target(p) == T(ValuePre(p), ValuePost(p), IF p.quote = "plain" THEN "" ELSE p.quote, TargetTag(p))
+Companion(p) == T(ValuePre(p), ValuePost(p), IF p.quote = "plain" THEN "" ELSE p.quote, "tok2")
 
 ----------------------------------------------------------------------------
 (* Host workflows *)
@@ -393,6 +473,11 @@ ExprDoc(p) ==
                           Jobs(<< E("strategy", M(<< E("matrix", M(<< E("k", C(Q(<< S0("a"), Wrap(p.depth, x) >>), cs)) >>)) >>)) >>,
                                Q(<< Step0 >>)))
     [] s \in {"ifw", "ifb"} -> WF(S0("push"), <<>>, Jobs(<<>>, Q(<< C(M(<< E("run", S0("echo")), E("if", x) >>), cs) >>)))
+    [] s = "filter" -> WF(M(<< E("push", M(<< E("branches", C(Q(<< S0("main"), x >>), cs)) >>)) >>), <<>>, JobsPlain)
+    [] s = "types" -> WF(M(<< E("pull_request", M(<< E("types", C(Q(<< S0("opened"), x >>), cs)) >>)) >>), <<>>, JobsPlain)
+    [] s = "matrixdup2" -> WF(S0("push"), <<>>,
+                              Jobs(<< E("strategy", M(<< E("matrix", M(<< E("k", C(Q(<< Companion(p), x >>), cs)) >>)) >>)) >>,
+                                   Q(<< Step0 >>)))
     [] s = "timeout" -> WF(S0("push"), <<>>, Jobs(<< E("timeout-minutes", x) >>, Q(<< Step0 >>)))
 
 KVDoc(p) ==
@@ -428,6 +513,32 @@ KVDoc(p) ==
     [] s = "dispatch" -> WF(M(<< E("workflow_dispatch",
                                    M(<< E("inputs", M(<< E("x", C(M(<< E("description", S0("d")), ent >>), cs)) >>)) >>)) >>),
                             <<>>, JobsPlain)
+    [] s = "strategy" -> WF(S0("push"), <<>>,
+                            Jobs(<< E("strategy", C(M(<< E("fail-fast", S0("true")), ent >>), cs)) >>, Q(<< Step0 >>)))
+    [] s = "defrun" -> WF(S0("push"), << E("defaults", M(<< E("run", C(M(<< E("shell", S0("bash")), ent >>), cs)) >>)) >>, JobsPlain)
+    [] s = "container" -> WF(S0("push"), <<>>, Jobs(<< E("container", C(M(<< E("image", S0("x")), ent >>), cs)) >>, Q(<< Step0 >>)))
+    [] s = "image" -> WF(S0("push"), <<>>, Jobs(<< E("container", C(M(<< E("options", S0("x")), ent >>), cs)) >>, Q(<< Step0 >>)))
+    [] s = "environment" -> WF(S0("push"), <<>>, Jobs(<< E("environment", C(M(<< E("name", S0("x")), ent >>), cs)) >>, Q(<< Step0 >>)))
+    [] s = "runsonmap" -> WF(S0("push"), <<>>,
+                             M(<< E("test", M(<< E("runs-on", C(M(<< E("group", S0("x")), ent >>), cs)), E("steps", Q(<< Step0 >>)) >>)) >>))
+    [] s = "dispatchtop" -> WF(M(<< E("push", M(<< E("branches", S0("main")) >>)), E("workflow_dispatch", C(M(<< ent >>), cs)) >>),
+                               <<>>, JobsPlain)
+    [] s = "calltop" -> WF(M(<< E("push", M(<< E("branches", S0("main")) >>)), E("workflow_call", C(M(<< ent >>), cs)) >>),
+                           <<>>, JobsPlain)
+    [] s = "schedseq" -> WF(M(<< E("schedule", C(Q(<< x >>), cs)) >>), <<>>, JobsPlain)
+    [] s = "onkey" -> M(<< EK(c.key, st, S0(c.val)), E("jobs", JobsPlain) >>)
+    [] s = "callinput" -> WF(M(<< E("workflow_call", M(<< E("inputs", M(<< E("x", C(M(<< E("description", S0("d")), ent >>), cs)) >>)) >>)) >>),
+                             <<>>, JobsPlain)
+    [] s = "callinputkey" -> WF(M(<< E("workflow_call", M(<< E("inputs", C(M(<< EK(c.key, st, M(<< E("description", S0("d")) >>)) >>), cs)) >>)) >>),
+                                <<>>, JobsPlain)
+    [] s = "calloutputkey" -> WF(M(<< E("workflow_call", M(<< E("outputs", C(M(<< EK(c.key, st, M(<< E("description", S0("d")) >>)) >>), cs)) >>)) >>),
+                                 <<>>, JobsPlain)
+    [] s = "stepuses" -> WF(S0("push"), <<>>, Jobs(<<>>, Q(<< C(M(<< E("uses", S0("actions/checkout@v4")), ent >>), cs) >>)))
+    [] s = "calljob" -> WF(S0("push"), <<>>,
+                           M(<< E("test", C(M(<< E("uses", S0("o/r/.github/workflows/w.yml@v1")), ent >>), cs)) >>))
+    [] s = "matrixdupx" -> WF(S0("push"), <<>>,
+                              Jobs(<< E("strategy", M(<< E("matrix", M(<< E("k", C(Q(<< [S0(c.val) EXCEPT !.st = "single"], x >>), cs)) >>)) >>)) >>,
+                                   Q(<< Step0 >>)))
     [] s = "matrixdup" -> WF(S0("push"), <<>>,
                              Jobs(<< E("strategy", M(<< E("matrix", M(<< E("k", C(Q(<< S0("1"), S0("2"), x >>), cs)) >>)) >>)) >>,
                                   Q(<< Step0 >>)))
@@ -448,6 +559,8 @@ Valid(p) ==
       bare == p.slot \in BareSlots IN
   /\ p.style = "flow" => p.slot \notin BlockOnly
   /\ p.quote = "single" => ~c.sq
+  /\ p.cls \in PlainOnly => p.quote = "plain"
+  /\ (c.fam = "kv" /\ c.role # "key" /\ c.val = "" /\ c.key # "") => p.quote # "plain"
   /\ bare => c.bare
   \* plain scalars: no flow indicators inside flow collections; the text must be plain-safe
   /\ (p.quote = "plain" /\ p.style = "flow") => (IF expr /\ ~bare THEN FALSE ELSE c.fp)
@@ -455,6 +568,8 @@ Valid(p) ==
   /\ (p.quote = "plain" /\ c.fam = "glob") => (c.fp \/ p.style = "block")
   \* parameters that do not apply are pinned to the smallest configured value
   /\ (expr /\ ~bare /\ p.slot \notin WholeSlots) \/ (p.plen = Min(PrefixLens) /\ p.earlier = Min(Earliers))
+  \* no context is available in `on:`: the clean placeholders (github.sha ...) would be errors that end the analysis
+  /\ p.slot \in NoContextSlots => p.earlier = Min(Earliers)
   /\ (expr /\ (~bare \/ p.quote # "plain")) \/ p.ws = Min(Blanks)
   /\ (expr /\ p.slot = "matrix") \/ p.depth = Min(Depths)
   \* k blanks in front of a block mapping key would change the indentation of the mapping
@@ -487,7 +602,7 @@ Place ==
        /\ Valid(p)
        /\ LET doc == Doc(p)
               r == Render(doc, Opts(p)) IN
-          v' = [p |-> p, sc |-> r.sc, at |-> r.at, quoted |-> IsQuoted(quote),
+          v' = [p |-> p, sc |-> r.sc, at |-> r.at, at2 |-> r.at2, quoted |-> IsQuoted(quote),
                 nlines |-> Len(r.ls), tline |-> r.ls[r.at[1]]]
   /\ st' = "run"
   /\ m' = [pc |-> "start"]
@@ -547,6 +662,7 @@ Emit ==
   /\ tc' = ToJson([prop |-> "C07", cls |-> v.p.cls, fam |-> Fam, kind |-> Cat(v.p.cls).kind,
                    phrase |-> Cat(v.p.cls).phrase, p |-> v.p, doc |-> Doc(v.p),
                    exp |-> [line |-> m.line, col |-> m.col],
+                   exp2 |-> [line |-> v.at2[1], col |-> v.at2[2]],     \* truth of the companion construct, 0:0 if none
                    sc |-> [line |-> v.sc[1], col |-> v.sc[2], q |-> v.quoted],
                    nlines |-> v.nlines, tline |-> v.tline])
   /\ UNCHANGED << v, m >>
